@@ -89,11 +89,17 @@ func runTaskSession(ts taskSession, r *rt.Run) (*recorder, error) {
 	if err != nil {
 		return nil, fmt.Errorf("start %s: %w\n%s", ts.name, err, ts.script)
 	}
+	broken := false
 	snapshot := func() {
 		// not before the UDF node has opened its UDF (that window is the fault scenario snap-before-open, which
 		// needs a child process): wait for the first output
+		if broken {
+			return
+		}
 		if !diag.WaitCount("post", 1, opDeadline) {
-			rt.Fatalf("c19task %s: nothing came out of the UDF node within %v", ts.name, opDeadline)
+			rec.ev("OutMissing", rt.M{"want": 1}) // nothing came out of the UDF node: no action explains this line
+			broken = true
+			return
 		}
 		rec.ev("Call", rt.M{"kind": "snapshot", "data": ""})
 		snap, err := et.Snapshot()
@@ -122,6 +128,9 @@ func runTaskSession(ts taskSession, r *rt.Run) (*recorder, error) {
 			if ts.snapAt[k] {
 				snapshot()
 			}
+			if broken {
+				return rec, nil
+			}
 			if err := cols[0].CollectBatch(b); err != nil {
 				return nil, err
 			}
@@ -136,6 +145,9 @@ func runTaskSession(ts taskSession, r *rt.Run) (*recorder, error) {
 		for k, p := range ts.points {
 			if ts.snapAt[k] {
 				snapshot()
+			}
+			if broken {
+				return rec, nil
 			}
 			if err := env.Write("db", "rp", p); err != nil {
 				return nil, err
